@@ -68,7 +68,7 @@ func c08Gen(r *driver.Rand, thorough bool) *driver.Plan {
 		total += n
 		senders = append(senders, elems(i, n))
 	}
-	p := c08Plan(driver.Pick(r, 0, 0, 1, 2, 5, 16), senders, driver.Pick(r, 1, 1, 1, 2))
+	p := c08Plan(genCap(r), senders, driver.Pick(r, 1, 1, 1, 2))
 	p.Producers = nil
 	p.Consumers = nil
 	genEnvPaces(r, p, ns, p.Receivers)
